@@ -11,6 +11,9 @@
 (*            to its predecessor runs in the same call, later in the       *)
 (*            country table)                                               *)
 (*   tables   the input tables of the herd model, keyed by country         *)
+(*   horizon  the settings-level default horizon of one yaml front-end     *)
+(*            call, which every simulation of the call receives (a         *)
+(*            simulation's own NMONTHS key is overridden by design)        *)
 (* A run resolves its options (Resolve: a "known to fail" combination is   *)
 (* corrected on a private copy), establishes the settings from its own     *)
 (* inputs (SetGlobals), loads the tables (LoadTables: numeric overrides    *)
@@ -21,7 +24,8 @@
 (* a fresh process.  The model makes explicit *why* this holds, so that    *)
 (* TLC refutes it for each way of breaking it (constant Broken: a read     *)
 (* before the set, a correction applied to the caller's object, an         *)
-(* override written into a shared table), and enumerates the histories     *)
+(* override written into a shared table, a simulation's own horizon        *)
+(* replacing the settings' default), and enumerates the histories          *)
 (* that are executed for real: in one process, each result compared bit    *)
 (* for bit with the same run alone.                                        *)
 (*                                                                         *)
@@ -36,40 +40,59 @@ CONSTANTS RunTypes,        \* distinguishable runs (different population, nutrit
           CountryOf,       \* run type -> country
           OptOf,           \* run type -> identity of its option dictionary (equal = may share one by-country call)
           TablePos,        \* country -> position in the country table (the loop order of a by-country call)
+          YamlAble,        \* the run types that are also run through the yaml front end
+          OwnHorizon,      \* the run types whose options carry their own NMONTHS key
           MaxLen, Broken, Emit
 
-ASSUME Broken \in {"none", "ReadsBeforeSet", "CorrectsInPlace", "OverridesShared"}
+ASSUME Broken \in {"none", "ReadsBeforeSet", "CorrectsInPlace", "OverridesShared", "RebindsHorizon"}
+\* how a run is called: directly (its own by-country call), as a further country of the previous by-country call, as the first
+\* simulation of a yaml front-end call, or as a further simulation of the previous yaml call
+Forms == {"direct", "country", "yamlfirst", "yamlnext"}
+IsYaml(f) == f \in {"yamlfirst", "yamlnext"}
 
 VARIABLES globals,   \* the run type whose settings are in force ("fresh" in a new process)
           optobj,    \* state of the option object of the current call: "asgiven" | "corrected"
           tables,    \* country -> "asread" | <<"overridden", run type>>
+          horizon,   \* "settings" | the run type whose own horizon replaced the settings' default (never, when correct)
           hist,      \* run types executed so far
-          joined,    \* joined[i]: run i ran in the same by-country call as run i - 1
-          results,   \* results[i] = <<run type, settings read, options read, table read>> or <<run type, "failed">>
-          pc         \* <<"idle">> | <<"resolve", r>> | <<"set", r, o>> | <<"load", r, o, g>> | <<"compute", r, o, g, t>> | <<"fail", r>>
-pvars == <<globals, optobj, tables, hist, joined, results, pc>>
+          joined,    \* joined[i]: the form of run i's call
+          results,   \* results[i] = <<run type, settings read, options read, table read, horizon read>> or <<run type, "failed">>
+          pc         \* <<"idle">> | <<"resolve", r>> | <<"set", r, o, h>> | <<"load", r, o, h, g>> | <<"compute", r, o, h, g, t>> | <<"fail", r>>
+pvars == <<globals, optobj, tables, horizon, hist, joined, results, pc>>
 
 OwnOptions(r) == IF r \in Patched THEN "corrected" ELSE "asgiven"
 OwnTable(r) == IF r \in Overriding THEN <<"overridden", r>> ELSE <<"asread">>
-Solo(r) == IF r \in Failing THEN <<r, "failed">>
-           ELSE <<r, IF Broken = "ReadsBeforeSet" THEN "fresh" ELSE r, OwnOptions(r), OwnTable(r)>>
+\* a direct call uses the run's own horizon, a yaml call the settings' (whatever the simulation says)
+OwnHorizonRead(f) == IF IsYaml(f) THEN "settings" ELSE "own"
+Solo(r, f) == IF r \in Failing THEN <<r, "failed">>
+              ELSE <<r, IF Broken = "ReadsBeforeSet" THEN "fresh" ELSE r, OwnOptions(r), OwnTable(r), OwnHorizonRead(f)>>
 
-PInit == /\ globals = "fresh" /\ optobj = "asgiven" /\ tables = [c \in {CountryOf[r] : r \in RunTypes} |-> <<"asread">>]
+PInit == /\ globals = "fresh" /\ optobj = "asgiven" /\ horizon = "settings" /\ tables = [c \in {CountryOf[r] : r \in RunTypes} |-> <<"asread">>]
          /\ hist = <<>> /\ joined = <<>> /\ results = <<>> /\ pc = <<"idle">>
 
-CanJoin(r) == /\ Len(hist) > 0
-              /\ LET q == hist[Len(hist)] IN
-                   /\ q \notin Failing /\ OptOf[q] = OptOf[r] /\ TablePos[CountryOf[q]] < TablePos[CountryOf[r]]
+CanJoin(r, f) ==
+  CASE f = "direct" -> TRUE
+    [] f = "yamlfirst" -> r \in YamlAble
+    [] f = "country" -> /\ Len(hist) > 0 /\ joined[Len(hist)] \in {"direct", "country"}
+                        /\ LET q == hist[Len(hist)] IN
+                             /\ q \notin Failing /\ OptOf[q] = OptOf[r] /\ TablePos[CountryOf[q]] < TablePos[CountryOf[r]]
+    [] f = "yamlnext" -> /\ Len(hist) > 0 /\ IsYaml(joined[Len(hist)]) /\ r \in YamlAble
+                         /\ LET q == hist[Len(hist)] IN q \notin Failing /\ CountryOf[q] = CountryOf[r]   \* one country list per call
 
-Begin(r, j) == /\ pc[1] = "idle" /\ Len(hist) < MaxLen
-               /\ j => CanJoin(r)
-               /\ pc' = <<"resolve", r>> /\ hist' = Append(hist, r) /\ joined' = Append(joined, j)
-               /\ optobj' = IF j THEN optobj ELSE "asgiven"      \* a new call brings the caller's own dictionary
+Begin(r, f) == /\ pc[1] = "idle" /\ Len(hist) < MaxLen
+               /\ CanJoin(r, f)
+               /\ pc' = <<"resolve", r>> /\ hist' = Append(hist, r) /\ joined' = Append(joined, f)
+               /\ optobj' = IF f = "country" THEN optobj ELSE "asgiven"      \* a new call / simulation brings its own dictionary
+               /\ horizon' = IF f = "yamlnext" THEN horizon ELSE "settings"  \* a new yaml call reads the settings afresh
                /\ UNCHANGED <<globals, tables, results>>
 
 \* the options the run works with: a patched run works on a corrected private copy
 Resolve(r) == /\ pc[1] = "resolve" /\ pc[2] = r
-              /\ pc' = <<"set", r, IF r \in Patched THEN "corrected" ELSE optobj>>
+              /\ LET f == joined[Len(hist)]
+                      rebinds == Broken = "RebindsHorizon" /\ IsYaml(f) /\ r \in OwnHorizon
+                      hread == IF ~IsYaml(f) THEN "own" ELSE IF rebinds THEN r ELSE horizon
+                 IN /\ pc' = <<"set", r, IF r \in Patched THEN "corrected" ELSE optobj, hread>>
+                    /\ horizon' = IF rebinds THEN r ELSE horizon
               /\ optobj' = IF Broken = "CorrectsInPlace" /\ r \in Patched THEN "corrected" ELSE optobj
               /\ UNCHANGED <<globals, tables, hist, joined, results>>
 
@@ -77,39 +100,40 @@ Resolve(r) == /\ pc[1] = "resolve" /\ pc[2] = r
 SetGlobals(r) == /\ pc[1] = "set" /\ pc[2] = r
                  /\ globals' = r
                  /\ pc' = IF r \in Failing THEN <<"fail", r>>
-                          ELSE <<"load", r, pc[3], IF Broken = "ReadsBeforeSet" THEN globals ELSE r>>
-                 /\ UNCHANGED <<optobj, tables, hist, joined, results>>
+                          ELSE <<"load", r, pc[3], pc[4], IF Broken = "ReadsBeforeSet" THEN globals ELSE r>>
+                 /\ UNCHANGED <<optobj, tables, horizon, hist, joined, results>>
 
 LoadTables(r) == /\ pc[1] = "load" /\ pc[2] = r
                  /\ LET c == CountryOf[r] IN
-                      /\ pc' = <<"compute", r, pc[3], pc[4], IF r \in Overriding THEN <<"overridden", r>> ELSE tables[c]>>
+                      /\ pc' = <<"compute", r, pc[3], pc[4], pc[5], IF r \in Overriding THEN <<"overridden", r>> ELSE tables[c]>>
                       /\ tables' = IF Broken = "OverridesShared" /\ r \in Overriding THEN [tables EXCEPT ![c] = <<"overridden", r>>]
                                     ELSE tables
-                 /\ UNCHANGED <<globals, optobj, hist, joined, results>>
+                 /\ UNCHANGED <<globals, optobj, horizon, hist, joined, results>>
 
 EmitHistory == Emit => PrintT(ToJson([k |-> "History", h |-> hist, joined |-> joined]))
 
 Compute(r) == /\ pc[1] = "compute" /\ pc[2] = r
-              /\ results' = Append(results, <<r, pc[4], pc[3], pc[5]>>)
+              /\ results' = Append(results, <<r, pc[5], pc[3], pc[6], pc[4]>>)
               /\ pc' = <<"idle">>
               /\ EmitHistory
-              /\ UNCHANGED <<globals, optobj, tables, hist, joined>>
+              /\ UNCHANGED <<globals, optobj, tables, horizon, hist, joined>>
 
 Fail(r) == /\ pc[1] = "fail" /\ pc[2] = r
            /\ results' = Append(results, <<r, "failed">>)
            /\ pc' = <<"idle">>
            /\ EmitHistory
-           /\ UNCHANGED <<globals, optobj, tables, hist, joined>>
+           /\ UNCHANGED <<globals, optobj, tables, horizon, hist, joined>>
 
-PNext == \E r \in RunTypes : (\E j \in BOOLEAN : Begin(r, j)) \/ Resolve(r) \/ SetGlobals(r) \/ LoadTables(r) \/ Compute(r) \/ Fail(r)
+PNext == \E r \in RunTypes : (\E f \in Forms : Begin(r, f)) \/ Resolve(r) \/ SetGlobals(r) \/ LoadTables(r) \/ Compute(r) \/ Fail(r)
 PSpec == PInit /\ [][PNext]_pvars
 
-HistoryIndependent == \A i \in 1..Len(results) : results[i] = Solo(hist[i]) \/ (Broken = "ReadsBeforeSet" /\ i = 1)
+HistoryIndependent == \A i \in 1..Len(results) : results[i] = Solo(hist[i], joined[i]) \/ (Broken = "ReadsBeforeSet" /\ i = 1)
 \* the property proper (what a user relies on): results do not depend on the history at all
 ResultDependsOnlyOnRun == \A i \in 1..Len(results) :
-   results[i] = (IF hist[i] \in Failing THEN <<hist[i], "failed">> ELSE <<hist[i], hist[i], OwnOptions(hist[i]), OwnTable(hist[i])>>)
+   results[i] = (IF hist[i] \in Failing THEN <<hist[i], "failed">>
+                 ELSE <<hist[i], hist[i], OwnOptions(hist[i]), OwnTable(hist[i]), OwnHorizonRead(joined[i])>>)
 \* nothing that outlives a run is ever modified except the settings
-SurvivorsUntouched == optobj = "asgiven" /\ \A c \in DOMAIN tables : tables[c] = <<"asread">>
+SurvivorsUntouched == optobj = "asgiven" /\ horizon = "settings" /\ \A c \in DOMAIN tables : tables[c] = <<"asread">>
 
 -----------------------------------------------------------------------------
 (* C15: aggregate fed fraction over a selection of countries.               *)
